@@ -132,7 +132,7 @@ def install(I: Interp):
         key, val = a
         if not isinstance(key, str):
             I.err(n, f"DataFrame[{key!r}] = ...")
-        if v.sel:
+        if v.sel and not all(str(x).startswith(("sort_values", "sort_index", "sample")) for x in v.sel):
             I.err(n, "column store on a selected (copied) frame")
         if isinstance(val, Arr):
             if val.sel:
@@ -163,6 +163,14 @@ def install(I: Interp):
         I.err(n, f"DataFrame.loc[{idx!r}]")
     M[("FrameLoc", "__getitem__")] = frameloc_getitem
     M[("Frame", "copy")] = lambda I, v, a, k, n: Frame(v.cols, v.sel, v.label + "_copy")
+    # re-ordering operations keep the columns but not the row order: recorded as a selection-like marker
+    for _nm in ("sort_values", "sort_index", "sample"):
+        M[("Frame", _nm)] = (lambda _nm: lambda I, v, a, k, n: Frame(
+            {c: Arr(x.num, x.sel + (f"{_nm}({I.describe(a[0]) if a else ''})",), x.kind, x.index) for c, x in v.cols.items()},
+            v.sel + (f"{_nm}({I.describe(a[0]) if a else ''})",), v.label))(_nm)
+    M[("Frame", "reset_index")] = lambda I, v, a, k, n: Frame(v.cols, v.sel, v.label)
+    for _nm in ("all", "any"):
+        M[("Mask", _nm)] = (lambda _nm: lambda I, v, a, k, n: UnknownBool(f"{_nm}({v.desc})"))(_nm)
 
 
 def coolprop_summaries(I: Interp, backend_ok=True):
